@@ -338,3 +338,49 @@ package ast
 //@   ensures [wf C09 C13] TreeWF() && OptOK(r) && len(res) == len(exprs) && forall k int :: 0 <= k && k < len(res) ==> IsExpr(res[k])
 //@   loop#1 invariant [wf] 0 <= i && TreeWF() && OptOK(r) && len(exprs) == old(len(exprs)) && forall k int :: 0 <= k && k < len(exprs) ==> IsExpr(exprs[k])
 //@   safety C13
+
+// cleanupCharClassMatcher (C09, C19): removing redundancies keeps the class's members (as sets) and
+// keeps the first occurrences in their original order (so the emitted text does not depend on map order).
+// KeptR(o, j, a, n): a[0..n) are the first occurrences among o[0..j), in order.
+//@ spec func KeptR(o []rune, j int, a arr[int]rune, n int) bool
+//@ pred FirstR(o []rune, j int) bool = forall i int :: 0 <= i && i < j ==> o[i] != o[j]
+//@ axiom keptr-base: forall o []rune, a arr[int]rune :: {KeptR(o, 0, a, 0)} KeptR(o, 0, a, 0)
+//@ axiom keptr-take: forall o []rune, j int, a arr[int]rune, n int :: {KeptR(o, j, a, n)} KeptR(o, j, a, n) && 0 <= j && j < len(o) && FirstR(o, j) ==> KeptR(o, j + 1, store(a, n, o[j]), n + 1)
+//@ axiom keptr-skip: forall o []rune, j int, a arr[int]rune, n int :: {KeptR(o, j, a, n)} KeptR(o, j, a, n) && 0 <= j && j < len(o) && !FirstR(o, j) ==> KeptR(o, j + 1, a, n)
+//@ pred HasRune(s []rune, r rune) bool = exists k int :: 0 <= k && k < len(s) && s[k] == r
+//@ pred HasPair(s []rune, lo rune, hi rune) bool = exists k int :: 0 <= k && 2*k + 1 < len(s) && s[2*k] == lo && s[2*k+1] == hi
+//@ pred HasStr(s []string, u string) bool = exists k int :: 0 <= k && k < len(s) && s[k] == u
+// the range key used for deduplication identifies the pair (string(lo) + "-" + string(hi) is injective)
+//@ spec func pairKey(lo int, hi int) string
+//@ axiom pairkey-def: forall a int, b int :: {strOfRune(a) + "-" + strOfRune(b)} strOfRune(a) + "-" + strOfRune(b) == pairKey(a, b)
+//@ axiom pairkey-inj: forall a int, b int, c int, d int :: {pairKey(a, b), pairKey(c, d)} pairKey(a, b) == pairKey(c, d) ==> a == c && b == d
+
+//@ extern escapeRune(r rune) (s string)
+//@   pure
+
+//@ func (r *grammarOptimizer) cleanupCharClassMatcher(expr0 Expression) (w Visitor)
+//@   requires [node] r != nil && (expr0 == nil || IsWalkNode(expr0)) && TreeWF()
+//@   requires [pairs] is(expr0, "*CharClassMatcher") ==> len(as(expr0, "*CharClassMatcher").Ranges) % 2 == 0
+//@   modifies all CharClassMatcher.Chars, all CharClassMatcher.Ranges, all CharClassMatcher.UnicodeClasses, all CharClassMatcher.posValue
+//@   ensures [wf C13] TreeWF()
+//@   ensures [chars-kept C09 local] is(expr0, "*CharClassMatcher") ==> forall k int :: {chr.Chars[k]} 0 <= k && k < len(chr.Chars) ==> HasRune(old(as(expr0, "*CharClassMatcher").Chars), chr.Chars[k])
+//@   ensures [chars-all C09 local] is(expr0, "*CharClassMatcher") ==> forall j int :: {old(as(expr0, "*CharClassMatcher").Chars)[j]} 0 <= j && j < len(old(as(expr0, "*CharClassMatcher").Chars)) ==> HasRune(chr.Chars, old(as(expr0, "*CharClassMatcher").Chars)[j])
+//@   ensures [chars-order C19 C09 local] is(expr0, "*CharClassMatcher") ==> KeptR(old(as(expr0, "*CharClassMatcher").Chars), len(old(as(expr0, "*CharClassMatcher").Chars)), arr(chars), len(chars)) && off(chars) == 0 && (len(chars) > 0 ==> chr.Chars == chars) && (len(chars) == 0 ==> len(chr.Chars) == 0)
+//@   ensures [ranges-kept C09 local] is(expr0, "*CharClassMatcher") ==> len(chr.Ranges) % 2 == 0 && forall k int :: {chr.Ranges[2*k]} 0 <= k && 2*k + 1 < len(chr.Ranges) ==> HasPair(old(as(expr0, "*CharClassMatcher").Ranges), chr.Ranges[2*k], chr.Ranges[2*k+1])
+//@   ensures [ranges-all C09 local] is(expr0, "*CharClassMatcher") ==> forall j int :: {old(as(expr0, "*CharClassMatcher").Ranges)[2*j]} 0 <= j && 2*j + 1 < len(old(as(expr0, "*CharClassMatcher").Ranges)) ==> HasPair(chr.Ranges, old(as(expr0, "*CharClassMatcher").Ranges)[2*j], old(as(expr0, "*CharClassMatcher").Ranges)[2*j+1])
+//@   ensures [classes-kept C09 local] is(expr0, "*CharClassMatcher") ==> forall k int :: {chr.UnicodeClasses[k]} 0 <= k && k < len(chr.UnicodeClasses) ==> HasStr(old(as(expr0, "*CharClassMatcher").UnicodeClasses), chr.UnicodeClasses[k])
+//@   ensures [classes-all C09 local] is(expr0, "*CharClassMatcher") ==> forall j int :: {old(as(expr0, "*CharClassMatcher").UnicodeClasses)[j]} 0 <= j && j < len(old(as(expr0, "*CharClassMatcher").UnicodeClasses)) ==> HasStr(chr.UnicodeClasses, old(as(expr0, "*CharClassMatcher").UnicodeClasses)[j])
+//@   loop#1 invariant [chars C09 C19] chr != nil && chr.Chars == old(chr.Chars) && off(chars) == 0 && KeptR(chr.Chars, idx1, arr(chars), len(chars))
+//@     | && (forall q int :: {has(charsMap, q)} has(charsMap, q) == (exists k int :: 0 <= k && k < idx1 && chr.Chars[k] == q))
+//@     | && (forall k int :: {chars[k]} 0 <= k && k < len(chars) ==> has(charsMap, chars[k])) && (forall q int :: {has(charsMap, q)} has(charsMap, q) ==> HasRune(chars, q)) && charsMap != nil
+//@   loop#1 invariant [seen] forall j int :: {chr.Chars[j]} 0 <= j && j < idx1 ==> has(charsMap, chr.Chars[j])
+//@   loop#2 invariant [seen] forall j int :: {chr.Ranges[2*j]} 0 <= j && 2*j < i ==> has(rangesMap, pairKey(chr.Ranges[2*j], chr.Ranges[2*j+1]))
+//@   loop#2 invariant [ranges C09] chr != nil && chr.Ranges == old(chr.Ranges) && i % 2 == 0 && 0 <= i && i <= len(chr.Ranges) && len(ranges) % 2 == 0 && rangesMap != nil
+//@     | && (forall lo int, hi int :: {has(rangesMap, pairKey(lo, hi))} has(rangesMap, pairKey(lo, hi)) == (exists k int :: 0 <= k && 2*k < i && chr.Ranges[2*k] == lo && chr.Ranges[2*k+1] == hi))
+//@     | && (forall k int :: {ranges[2*k]} 0 <= k && 2*k + 1 < len(ranges) ==> has(rangesMap, pairKey(ranges[2*k], ranges[2*k+1]))) && (forall lo int, hi int :: {has(rangesMap, pairKey(lo, hi))} has(rangesMap, pairKey(lo, hi)) ==> HasPair(ranges, lo, hi))
+//@   loop#3 invariant [seen] forall j int :: {chr.UnicodeClasses[j]} 0 <= j && j < idx3 ==> has(unicodeClassesMap, chr.UnicodeClasses[j])
+//@   loop#3 invariant [classes C09] chr != nil && chr.UnicodeClasses == old(chr.UnicodeClasses) && unicodeClassesMap != nil
+//@     | && (forall u string :: {has(unicodeClassesMap, u)} has(unicodeClassesMap, u) == (exists k int :: 0 <= k && k < idx3 && chr.UnicodeClasses[k] == u))
+//@     | && (forall k int :: {unicodeClasses[k]} 0 <= k && k < len(unicodeClasses) ==> has(unicodeClassesMap, unicodeClasses[k])) && (forall u string :: {has(unicodeClassesMap, u)} has(unicodeClassesMap, u) ==> HasStr(unicodeClasses, u))
+//@   loop#5 invariant [val] i % 2 == 0 && 0 <= i && len(chr.Ranges) % 2 == 0
+//@   safety C13
